@@ -10,7 +10,7 @@
 (*   ctok_same (index list entries are the very objects in the token list),  *)
 (*   raised                                                                  *)
 (***************************************************************************)
-EXTENDS Tokenize, Json, IOUtils
+EXTENDS Tokenize, Json, IOUtils, Hits
 
 Traces == JsonDeserialize(IOEnv.TRACE_FILE)
 NT == Len(Traces)
@@ -23,7 +23,9 @@ RECURSIVE Flat(_, _)
 Flat(ws, k) == IF k > Len(ws) THEN <<>> ELSE ws[k].t \o Flat(ws, k + 1)
 Specials(ws) == {k \in DOMAIN ws : ws[k].special}
 
-Clauses == {"C04.noraise", "C12.concat", "C12.selfindex", "C12.order", "C12.index"}
+ClauseSeq == <<"C04.noraise", "C12.concat", "C12.selfindex", "C12.order", "C12.index">>
+Clauses == {ClauseSeq[ci] : ci \in DOMAIN ClauseSeq}
+ASSUME PrintT(<<"CLAUSES", ToJson(ClauseSeq)>>)
 Holds(cl, t) ==
   LET tr == T(t)  ws == tr.words  txt == tr.text IN
   IF tr.raised # "" THEN cl # "C04.noraise"
@@ -50,7 +52,16 @@ TNext == /\ tid = 0 /\ \E t \in {x \in 1..NT : x % NB = bucket} : tid' = t
          /\ UNCHANGED <<vars, bucket>>
 TSpec == TInit /\ [][TNext]_tvars
 
-Judge == tid # 0 => \A cl \in Clauses : Holds(cl, tid) \/ PrintT(<<"FAIL", tid, cl>>)
+Exercised(cl, t) ==
+  LET tr == T(t)  ws == tr.words IN
+  IF cl = "C04.noraise" THEN TRUE
+  ELSE IF tr.raised # "" THEN FALSE
+  ELSE CASE cl = "C12.concat" -> Len(ws) >= 2
+    [] cl \in {"C12.selfindex", "C12.index"} -> Specials(ws) # {}
+    [] cl = "C12.order" -> Cardinality(Specials(ws)) >= 2
+    [] OTHER -> FALSE
+Judge == tid # 0 => (/\ \A cl \in Clauses : Holds(cl, tid) \/ PrintT(<<"FAIL", tid, cl>>)
+   /\ PrintT(<<"HIT", tid, Mask([ci \in DOMAIN ClauseSeq |-> Exercised(ClauseSeq[ci], tid)])>>))
 Conform == (tid # 0 /\ T(tid).raised = "") =>
              LET m == ModelRun(tid) IN
              (m.words = ObsWords(tid) /\ m.ctoks = T(tid).ctoks) \/ PrintT(<<"DRIFT", tid>>)
